@@ -6,13 +6,20 @@ Conventions
   * a boolean value is a Python bool or a z3 BoolRef
   * Str: bytes (list of ints / BV8 terms, len == cap), ln (int / BV64 term), invariant ln <= cap
 """
-import z3
+import zz as z3
 
 W = 64  # width of Go int / length terms
 
 
 def is_c(v):
-    return isinstance(v, (int, bool)) and not isinstance(v, z3.ExprRef)
+    return isinstance(v, (int, bool))
+
+
+def _cv(t, bits, signed):
+    """folded bit-vector constant -> Python int of the value's type"""
+    if isinstance(t, z3.ExprRef) and t.op == 'bv':
+        return norm(t.p, bits, signed)
+    return t
 
 
 def mask(bits):
@@ -46,9 +53,9 @@ def bl(v):
 _UB = {}
 
 
-def set_ub(t, ub):
+def set_ub(t, ub, lb=0):
     if not is_c(t):
-        _UB[t.get_id()] = (t, ub)
+        _UB[t.get_id()] = (t, ub, lb)
     return t
 
 
@@ -57,6 +64,13 @@ def get_ub(t):
         return t
     e = _UB.get(t.get_id())
     return e[1] if e else None
+
+
+def get_lb(t):
+    if is_c(t):
+        return t
+    e = _UB.get(t.get_id())
+    return e[2] if e else None
 
 
 # ---- booleans ----
@@ -167,10 +181,13 @@ def ite(c, a, b, bits=None):
     if bits is None:
         bits = a.size() if not is_c(a) else (b.size() if not is_c(b) else W)
     r = z3.If(c, bv(a, bits), bv(b, bits))
+    if r.op == 'bv':
+        return norm(r.p, bits, (is_c(a) and a < 0) or (is_c(b) and b < 0))
     ua, ub = get_ub(a), get_ub(b)
     if ua is not None and ub is not None and isinstance(ua, int) and isinstance(ub, int):
         if ua >= 0 and ub >= 0:
-            set_ub(r, max(ua, ub))
+            la, lb2 = get_lb(a), get_lb(b)
+            set_ub(r, max(ua, ub), min(la or 0, lb2 or 0))
     return r
 
 
@@ -207,6 +224,10 @@ def i_bin(op, a, b, bits, signed):
         if op == '>>':
             return norm(a >> b, bits, signed) if b < bits else (norm(-1 if a < 0 else 0, bits, signed))
         raise NotImplementedError(op)
+    return _cv(_i_bin(op, a, b, bits, signed, ca, cb), bits, signed)
+
+
+def _i_bin(op, a, b, bits, signed, ca, cb):
     x, y = bv(a, bits), bv(b, bits)
     if op == '+':
         if cb and b == 0:
@@ -256,6 +277,20 @@ def i_cmp(op, a, b, bits, signed):
     if signed or True:
         ua, ub = get_ub(a), get_ub(b)
         if ca and ub is not None and not cb:
+            lb_ = get_lb(b)
+            if lb_:
+                if op == '==' and a < lb_:
+                    return False
+                if op == '!=' and a < lb_:
+                    return True
+                if op == '<' and a < lb_:
+                    return True
+                if op == '<=' and a <= lb_:
+                    return True
+                if op == '>' and a <= lb_:
+                    return False
+                if op == '>=' and a < lb_:
+                    return False
             # compare constant a with term b in [0, ub]
             if op == '<' and a >= ub:
                 return False
@@ -276,6 +311,20 @@ def i_cmp(op, a, b, bits, signed):
             if op == '<' and a < 0:
                 return True
         if cb and ua is not None and not ca:
+            la_ = get_lb(a)
+            if la_:
+                if op == '==' and b < la_:
+                    return False
+                if op == '!=' and b < la_:
+                    return True
+                if op == '>' and b < la_:
+                    return True
+                if op == '>=' and b <= la_:
+                    return True
+                if op == '<' and b <= la_:
+                    return False
+                if op == '<=' and b < la_:
+                    return False
             if op == '>' and b >= ua:
                 return False
             if op == '>=' and b > ua:
@@ -308,7 +357,7 @@ def i_conv(v, fbits, fsigned, tbits, tsigned):
     if tbits == fbits:
         return v
     if tbits < fbits:
-        return z3.Extract(tbits - 1, 0, v)
+        return _cv(z3.Extract(tbits - 1, 0, v), tbits, tsigned)
     r = z3.SignExt(tbits - fbits, v) if fsigned else z3.ZeroExt(tbits - fbits, v)
     if not fsigned:
         set_ub(r, mask(fbits))
@@ -403,14 +452,37 @@ def s_eq(a, b):
     return b_and(*conds)
 
 
+def vals_of(t, limit=12):
+    """feasible values of a length/position term when it is a small constant tree, else None"""
+    if is_c(t):
+        return [t]
+    lv = z3.leaves(t)
+    if lv is None or len(lv) > limit:
+        return None
+    return sorted(norm(v, t.size(), True) for v in lv)
+
+
 def s_byte(s, i):
     """byte at (possibly symbolic) index; caller checks bounds"""
     if is_c(i):
         return s.b[i] if 0 <= i < s.cap else 0
+    vs = vals_of(i)
+    if vs is not None:
+        r = 0
+        for v in vs:
+            if 0 <= v < s.cap:
+                r = ite(i == v, s.b[v], r, 8)
+        return r
     r = 0
     for p in range(s.cap - 1, -1, -1):
         r = ite(i == p, s.b[p], r, 8)
     return r
+
+
+def _bits_of(t, maxv):
+    """conditions for the binary digits of term t (LSB first), enough digits to represent maxv"""
+    n = max(1, int(maxv).bit_length())
+    return [z3.Extract(k, k, t) == 1 for k in range(n)]
 
 
 def s_concat(a, b):
@@ -418,17 +490,27 @@ def s_concat(a, b):
         return Str(a.b[:a.ln] + b.b, i_bin('+', a.ln, b.ln, W, True))
     if b.cap == 0 or (is_c(b.ln) and b.ln == 0):
         return a
+    vs = vals_of(a.ln)
+    if vs is not None:
+        vs = [v for v in vs if 0 <= v <= a.cap]
+        r = None
+        for v in vs:
+            cand = Str(a.b[:v] + b.b, i_bin('+', v, b.ln, W, True))
+            r = cand if r is None else s_ite(a.ln == v, cand, r)
+        if r is not None:
+            return r
     cap = a.cap + b.cap
+    # barrel shifter: B[p] = b[p - a.ln]
+    B = list(b.b) + [0] * a.cap
+    for k, bit in enumerate(_bits_of(a.ln, a.cap)):
+        sh = 1 << k
+        B = [ite(bit, B[p - sh] if p >= sh else 0, B[p], 8) for p in range(cap)]
     out = []
     for p in range(cap):
-        v = 0
-        # value contributed by b when a.ln == la
-        for la in range(min(a.cap, p), max(-1, p - b.cap), -1):
-            v = ite(a.ln == la, b.b[p - la], v, 8)
         if p < a.cap:
-            out.append(ite(i_cmp('<', p, a.ln, W, True), a.b[p], v, 8))
+            out.append(ite(i_cmp('<', p, a.ln, W, True), a.b[p], B[p], 8))
         else:
-            out.append(v)
+            out.append(B[p])
     return Str(out, i_bin('+', a.ln, b.ln, W, True))
 
 
@@ -447,16 +529,28 @@ def s_substr(s, lo, hi):
     if is_c(lo) and is_c(hi):
         return Str(s.b[lo:hi] + [0] * max(0, (hi - lo) - len(s.b[lo:hi])), hi - lo)
     if is_c(lo):
-        return Str(s.b[lo:], i_bin('-', hi, lo, W, True))
+        ln = i_bin('-', hi, lo, W, True)
+        if not is_c(ln):
+            vh = vals_of(hi)
+            if vh is not None:
+                return Str(s.b[lo:max(lo, min(s.cap, max(vh)))], ln)
+        return Str(s.b[lo:], ln)
+    vs = vals_of(lo)
+    if vs is not None:
+        vs = [v for v in vs if 0 <= v <= s.cap]
+        r = None
+        for v in vs:
+            cand = s_substr(s, v, hi)
+            r = cand if r is None else s_ite(lo == v, cand, r)
+        if r is not None:
+            return r
     cap = s.cap
-    out = []
     ub_lo = get_ub(lo)
     maxlo = min(cap, ub_lo) if ub_lo is not None else cap
-    for q in range(cap):
-        v = 0
-        for st in range(min(maxlo, cap - q - 1), -1, -1):
-            v = ite(lo == st, s.b[st + q], v, 8)
-        out.append(v)
+    out = list(s.b)
+    for k, bit in enumerate(_bits_of(lo, maxlo)):
+        sh = 1 << k
+        out = [ite(bit, out[p + sh] if p + sh < cap else 0, out[p], 8) for p in range(cap)]
     ln = i_bin('-', hi, lo, W, True)
     if not is_c(ln):
         set_ub(ln, cap)
@@ -520,9 +614,19 @@ def ev_int(model, t, signed=False, bits=None):
     if is_c(t):
         return t
     v = model.eval(t, model_completion=True)
-    if z3.is_bool(v):
-        return z3.is_true(v)
+    if isinstance(v, bool):
+        return v
     n = v.as_long()
     if signed:
         n = norm(n, v.size(), True)
     return n
+
+
+def s_contains(s, needle):
+    """condition: concrete byte string `needle` occurs in Str s"""
+    n = needle if isinstance(needle, bytes) else needle.encode()
+    L = len(n)
+    alts = []
+    for p in range(s.cap - L + 1):
+        alts.append(b_and(i_cmp('<=', p + L, s.ln, W, True), *[i_cmp('==', s.b[p + k], n[k], 8, False) for k in range(L)]))
+    return b_or(*alts)
